@@ -115,7 +115,7 @@ def anyNotAtOwner (z : Zone) (q : Query) : Bool :=
 
 /-- A zone as `upsert` builds it from a sane zone file: apex SOA and NS, every owner inside the
 zone, SOA only at the apex, CNAME alone at its owner and with a target, no ANAME, no NS at a
-wildcard owner (RFC 4592 §4.2 leaves that undefined). -/
+wildcard owner (RFC 4592 §4.2 leaves that undefined), the origin itself not a wildcard name. -/
 def zoneWF (z : Zone) (o : LName) : Bool :=
   (rrsetAt z o T_SOA).isSome && (rrsetAt z o T_NS).isSome &&
   z.all (fun r => isAncestorOrSelf o r.name) &&
@@ -123,6 +123,7 @@ def zoneWF (z : Zone) (o : LName) : Bool :=
   z.all (fun r => r.type != T_CNAME ||
     ((r.rdatas.head?.bind (·.target)).isSome && z.all fun r' => r'.name != r.name || r'.type == T_CNAME)) &&
   z.all (fun r => r.type != T_ANAME) &&
-  z.all (fun r => r.type != T_NS || !isWildcardName r.name)
+  z.all (fun r => r.type != T_NS || !isWildcardName r.name) &&
+  !isWildcardName o
 
 end HickoryVerif.AuthZone.Dev
